@@ -493,6 +493,10 @@ fn name_strategy() -> impl Strategy<Value = String> {
         3 => "[a-z][a-z0-9-]{0,12}",
         1 => "[a-z]{6,8}",                       // around the 3-bit prefix boundary (7)
         1 => "[a-z0-9-]{130,140}",               // around 7 + 127
+        // encoded length exactly at prefix + 128 (first value whose continuation needs a second
+        // byte): '#' has a 12-bit Huffman code, so the literal form is kept; 'a' has a 5-bit code,
+        // so 216 of them take exactly 135 Huffman bytes
+        1 => proptest::sample::select(vec!["#".repeat(134), "#".repeat(135), "#".repeat(136), "a".repeat(215), "a".repeat(216), "a".repeat(217)]),
         1 => ":[a-z]{1,10}",
         2 => "\\PC{1,12}",                       // arbitrary printable Unicode
         1 => Just(String::new()),
@@ -506,6 +510,8 @@ fn value_strategy() -> impl Strategy<Value = String> {
         3 => "[ -~]{0,40}",
         1 => "[a-z]{120,135}",                   // around the 7-bit prefix boundary (127)
         1 => "[a-z ]{250,260}",
+        // encoded length exactly at 127 + 128 = 255 (and its neighbours), literal and Huffman
+        1 => proptest::sample::select(vec!["#".repeat(254), "#".repeat(255), "#".repeat(256), "a".repeat(407), "a".repeat(408), "a".repeat(409), "#".repeat(127), "#".repeat(128)]),
         1 => "[#-&(-+]{100,140}",                // characters with long Huffman codes: Huffman does not shrink
         2 => "\\PC{0,30}",
         1 => ".{0,20}",                          // may include control characters
